@@ -13,7 +13,7 @@ props/C30.py; the three refutations below show it is false for the code as it is
 -/
 import RsassModel.Calc.Model
 import RsassModel.Calc.Lemmas
-import RsassModel.MathFn.RatInst
+import RsassModel.Calc.IntInst
 namespace Calc
 open MathFn
 
@@ -41,7 +41,7 @@ theorem calc_numbers_fold (q : CalcQuirks) (showQ : Q α → String) (t : T α) 
         cases hf : foldNum op x y with
         | val w =>
           simp only [hf, Option.some.injEq] at h; subst h
-          simp only [evalC, iha x ha, ihb y hb, hf]
+          simp only [evalC, iha x ha, ihb y hb, combine_fold q showQ op x y _ hf]
         | keep => simp [hf] at h
         | err => simp [hf] at h
         | unsupported => simp [hf] at h
@@ -77,20 +77,8 @@ theorem calc_never_other_number (q : CalcQuirks) (showQ : Q α → String) (t : 
       | unsupported => simp [hea, heb] at h
       | ok vb =>
         simp only [hea, heb] at h
-        cases va with
-        | num x =>
-          cases vb with
-          | num y =>
-            simp only [] at h
-            cases hf : foldNum op x y with
-            | val w =>
-              simp only [hf, R.ok.injEq, V.num.injEq] at h; subst h
-              simp only [arith, iha x hea, ihb y heb, hf]
-            | keep => simp [hf] at h
-            | err => simp [hf] at h
-            | unsupported => simp [hf] at h
-          | _ => (split at h <;> cases h)
-        | _ => (split at h <;> cases h)
+        obtain ⟨x, y, rfl, rfl, hf⟩ := combine_num q showQ op va vb z h
+        simp only [arith, iha x hea, ihb y heb, hf]
 
 /-- FULL (specification model): when no operator has two numeric operands the evaluation
 returns the source tree without its grouping parentheses. -/
@@ -108,11 +96,10 @@ theorem calc_structure_preserved (showQ : Q α → String) (t : T α) (h : pairF
     simp only [pairFree, Bool.and_eq_true, Bool.not_eq_true'] at h
     obtain ⟨⟨ha, hb⟩, hn⟩ := h
     simp only [evalC, iha ha, ihb hb, shape]
-    cases hsa : shape a <;> cases hsb : shape b <;> simp_all [isNumV, spec]
+    cases hsa : shape a <;> cases hsb : shape b <;> simp_all [isNumV, spec, combine]
 
 /-- FULL: the shape has the same operands in the same order and the same operators in the same
 order as the source calculation. -/
-omit [AOps α] in
 theorem shape_same_leaves_ops (t : T α) :
     leavesV (shape t) = leavesT t ∧ opsV (shape t) = opsT t := by
   induction t with
@@ -126,18 +113,16 @@ theorem shape_same_leaves_ops (t : T α) :
 
 end parametric
 
-/-! ### refutations for the code as it is: the printed text re-reads to another calculation -/
+/-! ### satisfiability of the hypotheses, and refutations for the code as it is
+(exact `Int` carrier; the printed text re-reads to another calculation) -/
 section refute
-def rshow (x : Q Rat) : String := toString x.v.num ++ (match x.u with | .px => "px" | .percent => "%" | _ => "")
-instance ratA : AOps Rat :=
-  { toMOps := ratOps ⟨id, id, id, fun a _ => a, id, id, id, id, id, id, fun a _ => a, id, 0, 1⟩,
-    add := (· + ·), sub := (· - ·), neg := (- ·), isNeg := fun x => decide (x < 0) }
 
-/-- the hypothesis of `calc_numbers_fold` is satisfiable: `1px + 2px` -/
-example : arith (.bin .plus (.num (⟨1, .px⟩ : Q Rat)) (.num ⟨2, .px⟩)) = some ⟨3, .px⟩ := by decide +kernel
+/-- the hypothesis of `calc_numbers_fold` is satisfiable: `(1px + 2px) * 3` folds to `9px` -/
+example : calcText asis rshow (.bin .mul (.paren (.bin .plus (.num ⟨1, .px⟩) (.num ⟨2, .px⟩))) (.num ⟨3, .none⟩)) = "9px" := by
+  decide +kernel
 
 /-- the hypothesis of `calc_structure_preserved` is satisfiable: `(var(--x) + 1px) * 2` -/
-example : pairFree (.bin .mul (.paren (.bin .plus (.var 0) (.num (⟨1, .px⟩ : Q Rat)))) (.num ⟨2, .none⟩)) = true := by
+example : pairFree (.bin .mul (.paren (.bin .plus (.var 0) (.num (⟨1, .px⟩ : Q Int)))) (.num ⟨2, .none⟩)) = true := by
   decide +kernel
 
 /-- REFUTATION (C30-left-parens-dropped): `(100% - 10px) / 3` -/
@@ -161,6 +146,41 @@ theorem ident_plus_concat_refuted :
     calcText asis rshow (.bin .plus (.ident "a") (.num ⟨1, .px⟩)) = "calc(a1px)" ∧
     calcText spec rshow (.bin .plus (.ident "a") (.num ⟨1, .px⟩)) = "calc(a + 1px)" := by
   constructor <;> decide +kernel
+
+/-- PARTIAL (code as it is): without identifiers the flags do not touch the evaluation at all
+— only the printing differs — so `calc_structure_preserved` holds for the code too. -/
+theorem calc_structure_preserved_asis_partial {α : Type} [AOps α] (showQ : Q α → String) (t : T α)
+    (h : pairFree t = true) (hi : ∀ v, v ∈ leavesT t → isIdentV v = false) :
+    evalC asis showQ t = .ok (shape t) := by
+  induction t with
+  | num x => rfl
+  | var n => rfl
+  | ident s => exact absurd (hi (.ident s) (by simp [leavesT])) (by simp [isIdentV])
+  | paren t ih =>
+    simp only [pairFree] at h
+    simp only [evalC, ih h (by simpa [leavesT] using hi), shape]
+    cases shape t <;> rfl
+  | bin op a b iha ihb =>
+    simp only [pairFree, Bool.and_eq_true, Bool.not_eq_true'] at h
+    obtain ⟨⟨ha, hb⟩, hn⟩ := h
+    have hia : ∀ v, v ∈ leavesT a → isIdentV v = false := fun v hv => hi v (by simp [leavesT, hv])
+    have hib : ∀ v, v ∈ leavesT b → isIdentV v = false := fun v hv => hi v (by simp [leavesT, hv])
+    have sa := (shape_same_leaves_ops a).1
+    have sb := (shape_same_leaves_ops b).1
+    have hna : isIdentV (shape a) = false := by
+      cases hs : shape a with
+      | ident s => have := hia (.ident s) (by rw [← sa, hs]; simp [leavesV]); simp [isIdentV] at this
+      | _ => rfl
+    have hnb : isIdentV (shape b) = false := by
+      cases hs : shape b with
+      | ident s => have := hib (.ident s) (by rw [← sb, hs]; simp [leavesV]); simp [isIdentV] at this
+      | _ => rfl
+    have ea := iha ha hia
+    have eb := ihb hb hib
+    clear hi hia hib sa sb iha ihb
+    simp only [evalC, ea, eb, shape]
+    cases hsa : shape a <;> cases hsb : shape b <;>
+      simp_all [isNumV, asis, combine, isIdentV, leavesV]
 
 end refute
 end Calc
